@@ -18,6 +18,15 @@ CLAIMS = {
  'C04': dict(tech='abstract interpretation of MIR with alignment lemmas; must-fact gating of constructors; rustc type-layout facts',
    text='Proves for symbolic MIN_ALIGN and symbolic layouts: every value stored into a bump finger is MIN_ALIGN-aligned; every success value returned by try_alloc_layout, Alloc::{alloc,realloc} and Allocator::{allocate,shrink,grow,grow_zeroed} is aligned to the requested and the minimum alignment on each return alternative; chunks are requested with an alignment divisible by CHUNK_ALIGN, MIN_ALIGN and the request alignment; every constructed arena passed both MIN_ALIGN assertions; the static empty chunk is CHUNK_ALIGN-aligned.',
    ref='DESIGN.md section 4 C04'),
+ 'C06': dict(tech='CFG must-pass-through + TermFlow store classification on Bump::reset; who-may-write inventory',
+   text='Decides for every path through reset(): the only no-op path is the is_empty(current chunk) early return and nothing is stored or released before that test; every other path detaches the tail (cur.prev := sentinel), hands exactly that tail to the releaser, stores the footer address (EMPTY class = full usable capacity) into the kept chunk\'s finger and re-establishes allocated_bytes; reset writes no field of Bump, and allocation_limit is written only by constructors and set_allocation_limit. Capacity served after reset for arbitrary later requests is C01/C18 arithmetic, not re-derived here.',
+   ref='DESIGN.md section 4 C06'),
+ 'C08': dict(tech='TermFlow linear-term equalities at every store of the accounting field; accessor term checks',
+   text='Proves the accounting invariant J4 at each of the three places the counter is written (new chunk: prev.allocated_bytes + (layout.size - FOOTER_SIZE) with prev the footer stored in .prev; reset: layout.size - FOOTER_SIZE with prev just set to the sentinel; sentinel: 0), that only chunk-acquiring/releasing functions write it, that allocated_bytes() loads the current footer\'s counter and that allocated_bytes_including_metadata() adds count(raw chunk iterator from the current footer) * size_of::<ChunkFooter>(). With/without-footer sizes are distinct terms, so a wrong constant or a padded size is reported. Agreement with an external allocator ledger is implied (with C01.J3, C03.R2), not observed.',
+   ref='DESIGN.md section 4 C08'),
+ 'C20': dict(tech='effect analysis: static/shared-state inventory + must-fact guard at every footer store (TermFlow) + auto-trait impl inventory',
+   text='Decides absence of shared mutable state, which is what every schedule and interleaving depends on: no mutable or interior-mutable static other than the empty-chunk sentinel, no atomics/thread-locals/locks anywhere in the crate, and every store to any chunk-footer field in every inlined arena entry point is dominated by the false edge of is_empty(F) for the same footer (or targets a footer created in the same call), so the sentinel shared by all chunk-less arenas on all threads is never written; Bump is Send for every MIN_ALIGN, has no Sync impl and has Cell fields. Schedules themselves are not explored.',
+   ref='DESIGN.md section 4 C20'),
 }
 
 NOT_YET = 'check not built yet (build in progress, see DESIGN.md section 9)'
